@@ -207,7 +207,7 @@ func (fr *Frame) invoke(ins ssa.Instruction, recv *Val, it types.Type, m *types.
 func (fr *Frame) callFunc(ins ssa.Instruction, fn *ssa.Function, args []*Val, binds []*Val) *Val {
 	vc := fr.vc
 	name := shortFuncName(fn.String())
-	if c := vc.w.contracts[name]; c != nil && binds == nil && (vc.specDepth == 0 || (!c.Inline && len(c.Assigns) == 0)) {
+	if c := vc.w.contracts[name]; c != nil && binds == nil && (vc.specDepth == 0 || (!c.Inline && onlyGhostAssigns(c))) {
 		if !c.Inline && (vc.w.unroll == 0 || c.Trusted || fn.Blocks == nil) {
 			vc.used[name] = true
 			return fr.applyContract(ins, fn, c, args)
@@ -608,4 +608,13 @@ func (fr *Frame) checkEnsures(ins *ssa.Return, res *Val) {
 	if len(c.Assigns) > 0 || c.Pure {
 		fr.checkFrame(c, scope)
 	}
+}
+
+func onlyGhostAssigns(c *Contract) bool {
+	for _, a := range c.Assigns {
+		if !(a.Expr.Kind == "ident" && len(a.Expr.Name) > 0 && a.Expr.Name[0] == '$' && a.Expr.Name != "$heap") {
+			return false
+		}
+	}
+	return true
 }
